@@ -353,7 +353,8 @@ int _GD_Include(DIRFILE *D, struct parser_state *p, const char *ename,
   D->fragment[me].ns = ns;
   D->fragment[me].nsl = nsl;
   D->fragment[me].mtime = mtime;
-  D->fragment[me].vers = (p->pedantic) ? 1ULL << p->standards : 0;
+  D->fragment[me].vers = (p->pedantic && p->standards < 64) ?
+    1ULL << p->standards : 0;
 
   /* compute the (relative) subdirectory name */
   if (sname[0] == '.' && sname[1] == '\0') {
